@@ -171,5 +171,12 @@ PROPS = {
                      "'within 2 ulps' accepts either reading (distance to the correctly rounded f32, or real error); truncation and rounding both accepted for Quantity->Time",
                      "DimensionlessInteger<->Quantity value checks are lenient (statement only loosely covers them)"],
     ),
+    "C08": dict(
+        run=native, level=EXPL, technique="runtime reference-model monitor: f64 least-squares projection of the states read through the API just before update() (forward error bound), own slots read back with get_last_request; constraint residual and untouched-slot checks; behavioural observation of the tooth-count ratio",
+        rule="per device (Invert, GearTrain with ratio in +-[1e-2,1e2] via with_ratio_raw / with_ratio, Axle<0..6>, Differential x {Side1,Side2,Sum,Equal,new()}) seeded cases of 1..8 rounds; each round writes new states (distinct increasing stamps) into a random subset of own and connected external terminals (15% of cases with mutually consistent values), then read -> update -> read back; every presence subset of the 2- and 3-terminal devices carries a coverage floor; tooth lists of length 2..6; distinct = (device, presence mask of the reads, round class, consistent?)",
+        assumptions=["'states read at its terminals' = Getter<State> on the device's own terminals immediately before update() (mean of own and connected partner), as the statement words it",
+                     "forward bound 48*2^-24*sum|terms| per component; largest observed ratio per device reported; 'unchanged' for consistent inputs is within that bound",
+                     "terminals the statement does not name for a case (e.g. the trusted branches of a differential with a distrusted branch) must keep their own slot bit-identical"],
+    ),
 }
 NOT_APPLICABLE = {}
